@@ -104,7 +104,7 @@ def run(ctx):
         ls.sort(key=lambda x: x["k"])
         by_key.setdefault(key_for(name, ls), (name, ls[0]))
     known = {k["key"] for k in vlib.load_known().get("findings", []) if k["property"] == "C02"}
-    for key, (name, line) in sorted(by_key.items()):
+    for key, (name, line) in sorted(vlib.limit_new(by_key, "C02").items()):
         src = line["src"]
         if "#" in src:
             path, idx = src.rsplit("#", 1)
